@@ -374,7 +374,11 @@ func buildLedgerSpecial(rng *rand.Rand, name, cfgName string) *vtree {
 	toSender, toSenderAddr := create(0, asmSuicideTo(vaddr(t.keys[2])), 5)
 	toCoinbase, toCbAddr := create(1, asmSuicideTo(common.BigToAddress(big.NewInt(0xc0ffee00))), 5)
 	failCreate := sign(3, types.NewContractCreation(nonces[3], big.NewInt(9), 200000, big.NewInt(2e9), asmRevert()))
-	t.forced = []*types.Transaction{call(2, dAddr, 200, 600000), call(2, d2Addr, 50, 600000), toSender, toCoinbase, failCreate}
+	// a creation whose init code writes storage, logs, and then returns one byte more than the code size limit: the execution
+	// fails after it has run to completion
+	oversize := sign(3, types.NewContractCreation(nonces[3], big.NewInt(7), 400000, big.NewInt(2e9),
+		[]byte{0x60, 0x01, 0x60, 0x00, 0x55, 0x60, 0x00, 0x60, 0x00, 0xa0, 0x62, 0x00, 0x60, 0x01, 0x60, 0x00, 0xf3}))
+	t.forced = []*types.Transaction{call(2, dAddr, 200, 600000), call(2, d2Addr, 50, 600000), toSender, toCoinbase, failCreate, oversize}
 	b2 := t.extend(rng, b1[0], 1, vNone, &norm)
 	t.forced = []*types.Transaction{call(2, toSenderAddr, 3, 100000), call(2, toCbAddr, 4, 100000), call(2, kAddr, 1, 100000)}
 	t.extend(rng, b2[0], 1, vNone, &norm)
